@@ -722,7 +722,7 @@ package dials
 
 //@ func dials.(*deepCopier).registerPair(d, in, out)
 //@   props C03
-//@   safety C16
+//@   safety C16 C03
 //@   requires wfCopier(d) && valid(in) && valid(out) && vtype(in) == vtype(out)
 //@   modifies maps:deepCopier.ptrMap
 //@   ensures memoOK(d)
@@ -731,7 +731,7 @@ package dials
 
 //@ func dials.(*deepCopier).deepCopy(d, in, out)
 //@   props C02 C03
-//@   safety C16
+//@   safety C16 C03
 //@   requires C03_unsettable_copy_has_room: kind(vtype(in)) == Slice && !canSet(out) ==> vcap(out) >= vcap(in)
 //@   requires wfCopier(d) && valid(in) && writable(d, out) && vtype(in) == vtype(out) && vtype(in) != nil
 //@   requires C02_input_is_older_than_the_copier: allocT(vroot(in)) < allocT(d) && oldHeap(d)
@@ -745,7 +745,7 @@ package dials
 
 //@ func dials.(*deepCopier).deepCopyStruct(d, in, out)
 //@   props C02 C03
-//@   safety C16
+//@   safety C16 C03
 //@   requires wfCopier(d) && valid(in) && writable(d, out) && vtype(in) == vtype(out) && vtype(in) != nil
 //@   requires C02_input_is_older_than_the_copier: allocT(vroot(in)) < allocT(d) && oldHeap(d) && kind(vtype(in)) == Struct && canSet(out)
 //@   requires wf_memo_holds_only_nodes_of_the_finite_input_graph: memoRoom(d) >= 0
@@ -764,7 +764,7 @@ package dials
 
 //@ func dials.(*deepCopier).deepCopyPtr(d, in, out)
 //@   props C02 C03
-//@   safety C16
+//@   safety C16 C03
 //@   requires wfCopier(d) && valid(in) && writable(d, out) && vtype(in) == vtype(out) && vtype(in) != nil
 //@   requires C02_input_is_older_than_the_copier: allocT(vroot(in)) < allocT(d) && oldHeap(d) && kind(vtype(in)) == Ptr && canSet(out)
 //@   requires wf_memo_holds_only_nodes_of_the_finite_input_graph: memoRoom(d) >= 0
@@ -777,7 +777,7 @@ package dials
 
 //@ func dials.(*deepCopier).deepCopyIface(d, in, out)
 //@   props C02 C03
-//@   safety C16
+//@   safety C16 C03
 //@   requires wfCopier(d) && valid(in) && writable(d, out) && vtype(in) == vtype(out) && vtype(in) != nil
 //@   requires C02_input_is_older_than_the_copier: allocT(vroot(in)) < allocT(d) && oldHeap(d) && kind(vtype(in)) == Interface && canSet(out)
 //@   requires wf_memo_holds_only_nodes_of_the_finite_input_graph: memoRoom(d) >= 0
@@ -790,7 +790,7 @@ package dials
 
 //@ func dials.(*deepCopier).deepCopySlice(d, in, out)
 //@   props C02 C03
-//@   safety C16
+//@   safety C16 C03
 //@   requires wfCopier(d) && valid(in) && writable(d, out) && vtype(in) == vtype(out) && vtype(in) != nil
 //@   requires C02_input_is_older_than_the_copier: allocT(vroot(in)) < allocT(d) && oldHeap(d) && kind(vtype(in)) == Slice
 //@   requires C03_unsettable_copy_has_room: !canSet(out) ==> vcap(out) >= vcap(in)
@@ -805,7 +805,7 @@ package dials
 
 //@ func dials.(*deepCopier).deepCopyMap(d, in, out)
 //@   props C02 C03
-//@   safety C16
+//@   safety C16 C03
 //@   requires C02_settable_copy_still_aliases_the_input: canSet(out) ==> visnil(out) || vpointerH(rh, out) == vpointerH(rh, in)
 //@   requires wfCopier(d) && valid(in) && writable(d, out) && vtype(in) == vtype(out) && vtype(in) != nil
 //@   requires C02_input_is_older_than_the_copier: allocT(vroot(in)) < allocT(d) && oldHeap(d) && kind(vtype(in)) == Map
@@ -827,7 +827,7 @@ package dials
 // deepCopyArray(in, out): arrays, and slices whose backing array was just allocated by the copier
 //@ func dials.(*deepCopier).deepCopyArray(d, in, out)
 //@   props C02 C03
-//@   safety C16
+//@   safety C16 C03
 //@   requires wfCopier(d) && valid(in) && valid(out) && vtype(in) == vtype(out) && vtype(in) != nil && (kind(vtype(in)) == Array || kind(vtype(in)) == Slice)
 //@   requires C02_input_is_older_than_the_copier: ite(kind(vtype(in)) == Slice, visnil(in) || allocT(vptr(in)) < allocT(d), allocT(vroot(in)) < allocT(d)) && oldHeap(d)
 //@   requires C02_elements_are_written_into_the_copy: ite(kind(vtype(out)) == Slice,
